@@ -151,6 +151,23 @@ def run(ctx):
             if direct != sp:
                 res.violation("patterns written directly into DescriptorFormat.config are not used as named (first pattern at the top level, second at nested levels)",
                               dict(case, patterns=[p1, p2]), impl=direct, model=sp, clause="patterns")
+        if calls[0] % 5 == 3:
+            # the patterns requested through a subclass of DescriptorFormat (a project's own preset class): the same request,
+            # the same rendering - as a context and through set_config
+            Preset = type("Preset", (DescriptorFormat,), {"__doc__": "patterns of a project"})
+            try:
+                with Preset(p1, p2):
+                    via_sub = dc.to_string()
+                Preset.set_config(p1, p2)
+                via_sub_set = dc.to_string()
+            except Exception as e:
+                via_sub = via_sub_set = f"{type(e).__name__}: {e}"
+            finally:
+                DescriptorFormat.set_config(PATTERNS[0][0], PATTERNS[0][1])
+            res.count("patterns_through_a_subclass")
+            if via_sub != sp or via_sub_set != sp or dc.to_string() != s:
+                res.violation("patterns requested through a subclass of DescriptorFormat are not the ones the tree is rendered with",
+                              dict(case, patterns=[p1, p2]), impl=[via_sub, via_sub_set, dc.to_string()], model=[sp, sp, s], clause="patterns")
         if calls[0] % 5 == 4:
             # a request for new patterns that is refused (one of the two patterns lacks a wildcard or has an unknown one) changes
             # nothing: afterwards the tree is rendered with the patterns that were in force before the request - the defaults
